@@ -10,6 +10,7 @@ import (
 	"flag"
 	"fmt"
 	"os"
+	"runtime"
 	"sync"
 	"sync/atomic"
 	"testing"
@@ -300,15 +301,28 @@ func runCase(t fatalf, c *caseSpec) (peak int32) {
 		time.Sleep(200 * time.Microsecond)
 	}
 	// a fresh microtask is admitted by the scheduler (its own max delay cannot help: 1 h)
-	admitted := make(chan struct{})
-	go func() {
-		_ = mods[0].RunMicroTask("probe", time.Hour, func(context.Context) error { close(admitted); return nil })
-	}()
-	select {
-	case <-admitted:
-	case <-time.After(30 * time.Second):
-		running, thr, pm, pl := modules.VerifMicroTaskState()
-		t.Fatalf("C15-3-admission: with nothing running a new microtask was not admitted within 30 s: global count %d, limit %d, pending %d/%d; case %+v", running, thr, pm, pl, *c)
+	probe := func() time.Duration {
+		t0 := time.Now()
+		admitted := make(chan struct{})
+		go func() {
+			_ = mods[0].RunMicroTask("probe", time.Hour, func(context.Context) error { close(admitted); return nil })
+		}()
+		select {
+		case <-admitted:
+		case <-time.After(30 * time.Second):
+			running, thr, pm, pl := modules.VerifMicroTaskState()
+			t.Fatalf("C15-3-admission: with nothing running a new microtask was not admitted within 30 s: global count %d, limit %d, pending %d/%d; case %+v", running, thr, pm, pl, *c)
+		}
+		return time.Since(t0)
+	}
+	first := probe()
+	if first > 400*time.Millisecond {
+		// "admitted immediately": a scheduler that went back to sleep although the counts are zero only wakes up at its
+		// 1 s re-check. Slowness of the machine would slow the following probes down just the same, a lost wake-up does not.
+		second, third := probe(), probe()
+		if second < first/20 && third < first/20 {
+			t.Fatalf("C15-3-admission-delayed: with all counts back to zero the first new microtask was admitted only after %s (the next two after %s and %s): the scheduler was not woken by the last completion; case %+v", first, second, third, *c)
+		}
 	}
 	return atomic.LoadInt32(&peakV)
 }
@@ -414,6 +428,81 @@ func TestPropDoneConcurrent(t *testing.T) {
 		stats.ClassN("done_concurrent_attempts", int64(attempts))
 		if stats.WantSample("done_concurrent") {
 			stats.Sample("done_concurrent", map[string]any{"callers": callers, "priority": prio, "attempts": attempts, "stagger_spin": spin})
+		}
+	})
+}
+
+// TestPropClearanceQueueFull exercises the exits of the clearance functions that are taken when the clearance queue is
+// full and the max delay expires. The queue holds 100 x GOMAXPROCS requests, so this only runs in the job that starts
+// the test binary with GOMAXPROCS=1 (queue of 100).
+func TestPropClearanceQueueFull(t *testing.T) {
+	if runtime.GOMAXPROCS(0) != 1 {
+		t.Skip("needs GOMAXPROCS=1 (job 'queuefull')")
+	}
+	rapid.Check(t, func(t *rapid.T) {
+		limit := rapid.IntRange(2, 4).Draw(t, "limit")
+		extra := rapid.IntRange(5, 60).Draw(t, "extra")
+		prio := rapid.SampledFrom([]string{"low", "low", "med"}).Draw(t, "prio")
+		delayMS := rapid.SampledFrom([]int{5, 20, 60}).Draw(t, "maxdelay")
+		modules.SetMaxConcurrentMicroTasks(limit)
+		m := mods[0]
+		release := make(chan struct{})
+		var blockers sync.WaitGroup
+		started := make(chan struct{}, limit)
+		for i := 0; i < limit; i++ {
+			blockers.Add(1)
+			go func() {
+				defer blockers.Done()
+				_ = m.RunHighPriorityMicroTask("blocker", func(context.Context) error { started <- struct{}{}; <-release; return nil })
+			}()
+		}
+		for i := 0; i < limit; i++ {
+			<-started
+		}
+		// the limit is used up by the blockers: requests pile up in the clearance queue (100), the rest cannot even enqueue
+		var ran int32
+		var wg sync.WaitGroup
+		n := 100 + extra
+		for i := 0; i < n; i++ {
+			wg.Add(1)
+			go func() {
+				defer wg.Done()
+				fn := func(context.Context) error { atomic.AddInt32(&ran, 1); return nil }
+				if prio == "low" {
+					_ = m.RunLowPriorityMicroTask("filler", time.Duration(delayMS)*time.Millisecond, fn)
+				} else {
+					_ = m.RunMicroTask("filler", time.Duration(delayMS)*time.Millisecond, fn)
+				}
+			}()
+		}
+		done := make(chan struct{})
+		go func() { wg.Wait(); close(done) }()
+		select {
+		case <-done:
+		case <-time.After(120 * time.Second):
+			close(release)
+			t.Fatalf("C15-3-stuck: %d %s-priority microtasks with a max delay of %d ms did not all finish within 120 s", n, prio, delayMS)
+		}
+		close(release)
+		blockers.Wait()
+		if int(atomic.LoadInt32(&ran)) != n {
+			t.Fatalf("C15-2-once: %d of %d microtasks were executed", ran, n)
+		}
+		deadline := time.Now().Add(30 * time.Second)
+		for {
+			running, _, pm, pl := modules.VerifMicroTaskState()
+			per := modules.GetStatus().Modules[m.Name].MicroTasks
+			if running == 0 && per == 0 && pm == 0 && pl == 0 {
+				break
+			}
+			if time.Now().After(deadline) {
+				t.Fatalf("C15-3-counters: after %d %s-priority microtasks overflowed the clearance queue (limit %d, max delay %d ms) and everything finished, the global running count is %d, the module count %d, pending clearances %d/%d (want all zero)", n, prio, limit, delayMS, running, per, pm, pl)
+			}
+			time.Sleep(200 * time.Microsecond)
+		}
+		stats.Case(fmt.Sprintf("queuefull %d %d %s %d", limit, extra, prio, delayMS), true, "clearance_queue_overflow_"+prio)
+		if stats.WantSample("queuefull") {
+			stats.Sample("queuefull", map[string]any{"limit": limit, "requests": n, "priority": prio, "max_delay_ms": delayMS})
 		}
 	})
 }
